@@ -20,6 +20,9 @@ CLAIMS = {
  "C06": dict(cat="other", tech="static analysis: contradiction/one-sided-comparison rule and dominance rules over MIR CFGs; argument-provenance slices; abstract interpretation of compile_procedure",
    text="In the block executors every branch on `value == ONE` must have, on all paths of its other side, a comparison of the same value with ZERO whose remaining side returns NotBinaryValue before any consequence (child execution, end_*, execute_op, return): decided for the if condition, the loop-entry condition and the loop re-entry test. Split children are executed under the right comparison, join executes first() then second(), start_* dominates children and end_* runs exactly once on success; compile_body passes (true_case, false_case) to new_split in that order, wraps the while body in new_loop and pushes `times` clones for repeat; compile_procedure wraps bodies with locals in Push(n) FmpUpdate ... Push(-n) FmpUpdate with n = num_locals.",
    note="Trusted: " + TB + "; mirsym for compile_procedure. Not decided: behaviour of nested programs as a whole; exec inlining beyond the lowering shape.", ref="§3 C06"),
+ "C07": dict(cat="other", tech="static analysis: argument-provenance (def-use slices) at every memory call site, dominance rules for the context switch, abstract interpretation of System::start_call/start_syscall/restore_context, evaluated constants vs the documented memory layout, guardedness of address arithmetic",
+   text="Every memory access of the operation handlers passes exactly self.system.ctx() as context and an address that went through get_valid_address (the 2^32 check); the memory map is keyed by the ctx parameter, vacant reads give the zero word, an element store keeps elements 1..3; start_call_block snapshots (ctx, fn_hash, fmp, depth, overflow address) in the order ExecutionContextInfo stores them and end_call_block restores from the like-named fields after the depth > 16 rejection; the syscall path runs access_kernel_proc(..)? before switching context; caller is gated by in_syscall and returns fn_hash; the assembler rejects call/syscall in kernels and caller outside; FMP_MIN, SYSCALL_FMP_MIN and FMP_MAX equal the documented layout (2^30, 2^31, 3*2^30-1) and start_call/start_syscall/restore_context set fmp/ctx/in_syscall/fn_hash accordingly; u32 additions on addresses must be guarded.",
+   note="Trusted: " + TB + "; mirsym; docs/src/user_docs/assembly/execution_contexts.md as oracle for the layout. Not decided: memory contents over histories.", ref="§3 C07"),
 }
 
 NA = {
